@@ -114,6 +114,31 @@ func c15Freshness(r *core.Run, s *sim.Sim, csig string) {
 		return
 	}
 	y := refcrypto.YHex(coin[0].Secret)
+	// a query that names one Y twice among others gets one entry per requested Y, in request order
+	{
+		yOther := refcrypto.BaseMul(client.RandScalar(rng)).Hex()
+		asked := []string{y, yOther, y, yOther, y}
+		rb, _ := json.Marshal(map[string]any{"Ys": asked})
+		var rs struct {
+			States []struct {
+				Y     string `json:"Y"`
+				State string `json:"state"`
+			} `json:"states"`
+		}
+		code, b := post("/v1/checkstate", rb)
+		json.Unmarshal(b, &rs)
+		r.Eval(csig+"/checkstate-repeated-Ys", true)
+		if code != 200 || len(rs.States) != len(asked) {
+			r.Violate("http-checkstate:repeated-Ys:count", fmt.Sprintf("asked for the state of %d Ys (one of them three times), got status %d and %d states", len(asked), code, len(rs.States)), csig, map[string]any{"request": string(rb), "response": string(b)})
+		} else {
+			for i := range asked {
+				if rs.States[i].Y != asked[i] {
+					r.Violate("http-checkstate:repeated-Ys:order", fmt.Sprintf("entry %d answers for %s, asked was %s", i, rs.States[i].Y, asked[i]), csig, nil)
+					break
+				}
+			}
+		}
+	}
 	cbody, _ := json.Marshal(map[string]any{"Ys": []string{y}})
 	type stateResp struct {
 		States []struct {
